@@ -1,4 +1,4 @@
 CONSTANTS Workers <- MCWorkers  MaxGen = 3  Cap = 1  ReleaseBeforeRefresh = TRUE  NonBlockingCancel = TRUE
 SPECIFICATION Spec
-INVARIANTS TypeOK NoBlockedSend LockOrder NoStuck
+INVARIANTS TypeOK NoBlockedSend LockOrder MTakenFirst NoStuck
 CHECK_DEADLOCK FALSE
